@@ -207,3 +207,33 @@ META = {
          'C03_generate_is_dataflow): with a pool whose entries equal the pool-free meaning of their nodes, generate returns the '
          'pool-free meaning of every requested node, for every well-formed graph, stored set and output set.'),
 }
+
+
+# ---- later additions (appended to the entries above at import time) ----
+def _extend(pid, text_extra='', note_replace=()):
+    m = META[pid]
+    m['text'] = m['text'] + text_extra
+    for old, new in note_replace:
+        assert old in m['note'], (pid, old[:40])
+        m['note'] = m['note'].replace(old, new)
+
+
+_extend('C01',
+        ' C01_estimator_safe_unbounded: the binary64 batch estimator of the threshold form never lets a run stop before n_samples '
+        'acceptable draws and asks for at most one batch too many, for ALL n and consumed draws up to 2^40 (error analysis of the four '
+        'float operations through the Flocq bridge; depends on the FloatAxioms specifications and the classical real-number axioms, '
+        'listed in the evidence).',
+        [('the estimator theorem is for the stated finite domain only (beyond it the correspondence speaks)',
+          'the estimator theorem covers sizes up to 2^40 (C01_estimator_safe_unbounded; the finite-domain sweep is kept as a second, '
+          'axiom-free statement)')])
+_extend('C02',
+        ' END TO END (C02_generate_insertion_independent, composing C03_generate_is_dataflow and C03_model_log_exact): two builds of one '
+        'well-formed model that differ only in the order in which nodes, edges and observed data were inserted return the same values and '
+        'the same call log from generate; C02_model_ok: the model\'s own pair of results passes the decidable determinism predicate.')
+_extend('C14',
+        ' C14_become_keeps_children / _takes_parents / _others_untouched / _observed: the exact edge, node and observed-data '
+        'characterisation of become (update_node) incl. the recursive private-parent clean-up, for every model with simple edges (an '
+        'invariant of every edit script: C14_reachable_simple); the literal clauses fail only at self-loops (refuted by examples, '
+        'unreachable under the acyclicity guard).',
+        [('Partial: "become keeps the children" is checked on the implementation dumps on every run but not proved for the model '
+          '(acyclicity after become under the guard is proved: C14_become_acyclic); pickle', 'Partial: pickle')])
